@@ -98,10 +98,11 @@ impl<'a, 'b> Gen<'a, 'b> {
             sig.sorts.push("T".into());
         }
         if self.cfg.containers {
-            let n = 1 + s.below(2);
+            let n = 1 + s.below(3);
             for i in 0..n {
                 let kind = *s.pick(&[ContKind::Vec, ContKind::Set, ContKind::MultiSet]);
-                let elem = if i == 1 && s.chance(1, 3) { Ty::Cont(0) } else { Ty::Eq(s.below(sig.sorts.len())) };
+                // nesting chains up to three levels: K1 over K0, K2 over K1 (deep dirty-id propagation)
+                let elem = if i >= 1 && sig.conts.len() == i && s.chance(1, 2) { Ty::Cont(i - 1) } else { Ty::Eq(s.below(sig.sorts.len())) };
                 if sig.conts.iter().any(|c: &ContDecl| c.kind == kind && c.elem == elem) {
                     continue;
                 }
